@@ -327,6 +327,10 @@ pub struct HistOpts {
     /// the CLI's "load units::currencies on demand" switch is on (by-design exception: a failing
     /// input that triggered the load leaves the module loaded; the reference is told so)
     pub currency: bool,
+    /// after the run, the successful inputs are replayed by a child process that shares no
+    /// memory with this one (process-wide state: statics, thread-locals, lazily built tables),
+    /// and its outcomes and final digest must equal the faulted session's
+    pub procref: bool,
 }
 
 /// Identifiers that trigger on-demand loading: unit names and aliases of units::currencies
@@ -407,6 +411,8 @@ pub fn exec_history(
     let mut attempted_by_failed: BTreeSet<String> = BTreeSet::new();
     let mut since_failure = 99usize;
     let mut faults_fired = 0u64;
+    // for the fresh-process reference: (ok in A, currency load triggered, A's outcome text)
+    let mut ref_log: Vec<(bool, bool, String)> = vec![];
 
     let mut k = 0usize;
     while let Some(step) = src.next(&a, &importer) {
@@ -473,6 +479,7 @@ pub fn exec_history(
         }
 
         let failed = !oa.is_ok();
+        ref_log.push((!failed, false, if failed { oa.result_text() } else { oa.full_text() }));
         if opts.currency && failed {
             // By-design exception (lib.rs, on-demand branch): an input whose type check stumbled
             // over a currency identifier loads units::currencies and is then tried again; if it
@@ -483,6 +490,9 @@ pub fn exec_history(
             let trial_loaded = bt.names().contains(CURRENCY_PROBE);
             if !had && trial_loaded {
                 res.bump("probe.currency_loaded_by_failing_input");
+                if let Some(l) = ref_log.last_mut() {
+                    l.1 = true;
+                }
                 if !mentions_currency(&step.text, &currency_ids) {
                     res.fail(
                         "currency-load-unwarranted",
@@ -672,6 +682,37 @@ pub fn exec_history(
         for l in &da {
             fp.write_str(l);
         }
+        if opts.procref && res.violation.is_none() && ref_log.len() == executed.len() {
+            res.bump("checks.fresh_process_reference");
+            match run_ref_child(opts, &executed, &ref_log, &reimport, ans_defined) {
+                Err(e) => res.harness_error = Some(format!("fresh-process reference: {e}")),
+                Ok((outs, dref)) => {
+                    let want: Vec<&String> = ref_log.iter().map(|l| &l.2).collect();
+                    if outs.len() != want.len() {
+                        res.harness_error = Some(format!(
+                            "fresh-process reference returned {} outcomes for {} inputs",
+                            outs.len(),
+                            want.len()
+                        ));
+                    } else if let Some(i) = (0..outs.len()).find(|i| &outs[*i] != want[*i]) {
+                        res.fail(
+                            "fresh-process-diverged",
+                            format!(
+                                "input {i} `{}` gives {} in the session that saw every earlier failing input, but {} in a fresh process to which no failing input was ever submitted",
+                                executed[i].text.replace('\n', " ⏎ "),
+                                want[i],
+                                outs[i]
+                            ),
+                        );
+                    } else if let Some(d) = first_difference(&da, &dref) {
+                        res.fail(
+                            "fresh-process-diverged",
+                            format!("at the end of the history: faulted session vs the successful inputs replayed in a fresh process: {d}"),
+                        );
+                    }
+                }
+            }
+        }
     }
     res.add("vm_instructions", crate::sess::VM_STEPS_TOTAL.with(|c| c.replace(0)));
     res.add("inputs_including_probes", crate::sess::INPUTS_TOTAL.with(|c| c.replace(0)));
@@ -680,11 +721,180 @@ pub fn exec_history(
     executed
 }
 
+/// Parent side of the fresh-process reference: ship the literal steps to a child `nbsim c06-ref`.
+fn run_ref_child(
+    opts: HistOpts,
+    steps: &[Step],
+    log: &[(bool, bool, String)],
+    reimport: &[String],
+    ans_defined: bool,
+) -> Result<(Vec<String>, Vec<String>), String> {
+    use std::io::Write;
+    let req = json!({
+        "light": opts.light,
+        "currency": opts.currency,
+        "reimport": reimport,
+        "ans_defined": ans_defined,
+        "steps": steps.iter().zip(log.iter()).map(|(s, l)| {
+            let mut j = s.to_json();
+            j["ok"] = json!(l.0);
+            j["currency_loaded"] = json!(l.1);
+            j
+        }).collect::<Vec<_>>(),
+    });
+    let exe = std::env::current_exe().map_err(|e| e.to_string())?;
+    let mut child = std::process::Command::new(exe)
+        .arg("c06-ref")
+        .stdin(std::process::Stdio::piped())
+        .stdout(std::process::Stdio::piped())
+        .stderr(std::process::Stdio::null())
+        .spawn()
+        .map_err(|e| e.to_string())?;
+    child
+        .stdin
+        .take()
+        .unwrap()
+        .write_all(req.to_string().as_bytes())
+        .map_err(|e| e.to_string())?;
+    let out = child.wait_with_output().map_err(|e| e.to_string())?;
+    let v: Value = serde_json::from_slice(&out.stdout)
+        .map_err(|e| format!("child answered {:?} ({e})", String::from_utf8_lossy(&out.stdout).chars().take(200).collect::<String>()))?;
+    if let Some(e) = v["error"].as_str() {
+        return Err(e.to_string());
+    }
+    let strs = |k: &str| -> Vec<String> {
+        v[k].as_array()
+            .map(|a| a.iter().filter_map(|x| x.as_str().map(|s| s.to_string())).collect())
+            .unwrap_or_default()
+    };
+    Ok((strs("outcomes"), strs("digest")))
+}
+
+/// Run `f` in a fork()ed copy of this (single-threaded) process and return the text it produces.
+fn in_forked_copy(f: impl FnOnce() -> String) -> Result<String, String> {
+    use std::io::Read;
+    use std::os::fd::FromRawFd;
+    let mut fds = [0i32; 2];
+    // SAFETY: plain libc calls; the child process only computes, writes to its pipe end and
+    // leaves through _exit (no destructors, no stdio buffers of the parent are flushed twice)
+    unsafe {
+        if libc::pipe(fds.as_mut_ptr()) != 0 {
+            return Err("pipe failed".into());
+        }
+        let pid = libc::fork();
+        if pid < 0 {
+            return Err("fork failed".into());
+        }
+        if pid == 0 {
+            libc::close(fds[0]);
+            let text = f();
+            let bytes = text.as_bytes();
+            let mut off = 0usize;
+            while off < bytes.len() {
+                let n = libc::write(fds[1], bytes[off..].as_ptr() as *const libc::c_void, bytes.len() - off);
+                if n <= 0 {
+                    break;
+                }
+                off += n as usize;
+            }
+            libc::close(fds[1]);
+            libc::_exit(0);
+        }
+        libc::close(fds[1]);
+        let mut file = std::fs::File::from_raw_fd(fds[0]);
+        let mut out = String::new();
+        let r = file.read_to_string(&mut out);
+        let mut status = 0i32;
+        libc::waitpid(pid, &mut status, 0);
+        if r.is_err() {
+            return Err("cannot read the forked copy's answer".into());
+        }
+        if !libc::WIFEXITED(status) || libc::WEXITSTATUS(status) != 0 {
+            return Err(format!("forked copy ended abnormally (status {status}); partial answer {out:?}"));
+        }
+        Ok(out)
+    }
+}
+
+/// Child side: a from-scratch session in a process of its own receives the module
+/// registrations of every step in order, but only the inputs that succeeded in the parent.
+pub fn ref_child_main() -> i32 {
+    use std::io::Read;
+    let mut text = String::new();
+    if std::io::stdin().read_to_string(&mut text).is_err() {
+        return 2;
+    }
+    let Ok(req) = serde_json::from_str::<Value>(&text) else {
+        println!("{}", json!({"error": "cannot parse request"}));
+        return 2;
+    };
+    let light = req["light"].as_bool().unwrap_or(false);
+    let mut w = SessWorker::new();
+    let mut s = match w.fresh_base(light) {
+        Ok(s) => s,
+        Err(e) => {
+            println!("{}", json!({"error": e}));
+            return 2;
+        }
+    };
+    if req["currency"].as_bool().unwrap_or(false) {
+        s.ctx.load_currency_module_on_demand(true);
+    }
+    let mut probes = ProbeSet::default();
+    let mut outcomes: Vec<String> = vec![];
+    let empty = vec![];
+    for st in req["steps"].as_array().unwrap_or(&empty) {
+        let step = Step::from_json(st);
+        for (n, src) in &step.set_modules {
+            w.importer.add_module(n, src);
+        }
+        probes.note_input(&step.text);
+        for p in &step.probes {
+            if !probes.exprs.contains(p) {
+                probes.exprs.push(p.clone());
+            }
+        }
+        if st["ok"].as_bool().unwrap_or(false) {
+            w.importer.set_unavailable(&step.unavailable);
+            let o = s.submit_with(&step.text, step.vm_fault_at, numbat::resolver::CodeSource::Text);
+            w.importer.set_unavailable(&[]);
+            outcomes.push(o.full_text());
+        } else {
+            // An input that failed in the parent is "never submitted" here in the strongest
+            // sense: it is evaluated by a fork()ed copy of this process (copy-on-write image of
+            // the whole process state, statics and thread-locals included), which reports the
+            // outcome through a pipe and exits. This process itself never executes it.
+            match in_forked_copy(|| {
+                w.importer.set_unavailable(&step.unavailable);
+                s.clone()
+                    .submit_with(&step.text, step.vm_fault_at, numbat::resolver::CodeSource::Text)
+                    .result_text()
+            }) {
+                Ok(t) => outcomes.push(t),
+                Err(e) => {
+                    println!("{}", json!({"error": e}));
+                    return 2;
+                }
+            }
+            if st["currency_loaded"].as_bool().unwrap_or(false) {
+                apply_currency_load(&mut s);
+            }
+        }
+    }
+    let reimport: Vec<String> = req["reimport"]
+        .as_array()
+        .map(|a| a.iter().filter_map(|x| x.as_str().map(|s| s.to_string())).collect())
+        .unwrap_or_default();
+    let d = digest(&s, &probes, req["ans_defined"].as_bool().unwrap_or(false), &reimport);
+    println!("{}", json!({"outcomes": outcomes, "digest": d}));
+    0
+}
+
 pub fn trace_json(prop: &str, opts: HistOpts, faults: bool, steps: &[Step]) -> Value {
     json!({
         "format": 1,
         "property": prop,
-        "config": {"base": if opts.light {"light"} else {"prelude"}, "fresh": opts.fresh, "currency_on_demand": opts.currency, "faults": faults, "exchange_rates": "test", "step_budget": crate::sess::STEP_BUDGET},
+        "config": {"base": if opts.light {"light"} else {"prelude"}, "fresh": opts.fresh, "currency_on_demand": opts.currency, "fresh_process_reference": opts.procref, "faults": faults, "exchange_rates": "test", "step_budget": crate::sess::STEP_BUDGET},
         "steps": steps.iter().map(|s| s.to_json()).collect::<Vec<_>>(),
     })
 }
@@ -806,7 +1016,9 @@ impl Prop for C06 {
         let currency = run % 16 == 5;
         let fresh = run % 16 == 11;
         let light = rng.chance(0.5) && !currency;
-        let opts = HistOpts { light, fresh, currency };
+        // 1 run in 16 is also replayed (successful inputs only) in a fresh process
+        let procref = run % 16 == 3;
+        let opts = HistOpts { light, fresh, currency, procref };
         let real = w.real_modules(light);
         let mut cfg = Gen::swarm_cfg(&mut rng, faults, real);
         cfg.light_base = light;
@@ -825,6 +1037,9 @@ impl Prop for C06 {
         if fresh {
             res.bump("runs.from-scratch-sessions");
         }
+        if procref {
+            res.bump("runs.fresh-process-reference");
+        }
         let steps = exec_history(w, opts, &mut src, &mut res);
         (trace_json("C06", opts, faults, &steps), res)
     }
@@ -833,6 +1048,7 @@ impl Prop for C06 {
             light: trace["config"]["base"].as_str() == Some("light"),
             fresh: trace["config"]["fresh"].as_bool().unwrap_or(false),
             currency: trace["config"]["currency_on_demand"].as_bool().unwrap_or(false),
+            procref: trace["config"]["fresh_process_reference"].as_bool().unwrap_or(false),
         };
         let steps: Vec<Step> = trace["steps"]
             .as_array()
@@ -892,6 +1108,7 @@ impl Prop for C06 {
             "runs.fault-free",
             "runs.currency-on-demand",
             "runs.from-scratch-sessions",
+            "runs.fresh-process-reference",
         ]
     }
     fn assumptions(&self) -> Vec<String> {
